@@ -19,6 +19,11 @@ pub fn verif_dir() -> PathBuf {
     std::env::var("VERIF_DIR").map(PathBuf::from).unwrap_or_else(|_| PathBuf::from("/verif"))
 }
 
+/// where evidence and replay files are written (the mutant self-test points this elsewhere)
+pub fn out_dir() -> PathBuf {
+    std::env::var("VERIF_OUT").map(PathBuf::from).unwrap_or_else(|_| verif_dir())
+}
+
 pub fn base_seed() -> u64 {
     std::env::var("VERIF_SEED").ok().and_then(|s| s.trim().parse::<u64>().ok()).unwrap_or(DEFAULT_SEED)
 }
@@ -232,6 +237,14 @@ pub fn hist_worker(prop: &str, thorough: bool, base: u64, idx: u64, stride: u64,
         }
         for v in &r.violations {
             out.add_violation(v, seed);
+        }
+        for (e, n) in &r.edges {
+            // lock-order edges (C15 harvest): recorded like findings of the pseudo property C15E, with the run that showed them
+            let v = Violation { prop: "C15E".into(), sig: e.clone(), detail: String::new(), at: 0 };
+            out.add_violation(&v, seed);
+            if let Some(rec) = out.violations.get_mut(&format!("C15E|{e}")) {
+                rec.count += n - 1;
+            }
         }
         let ok_ops = r.ops.len() as u64 - r.errs.min(r.ops.len() as u64);
         if ok_ops >= 5 && r.state_hashes.len() >= 3 {
@@ -520,7 +533,7 @@ pub fn make_hist_replay(prop: &str, sig: &str, run_seed: u64, thorough: bool, sc
         log_hash: r1.log_hash,
         trace: fmt_trace(&r1.trace).into_iter().rev().take(400).rev().collect(),
     };
-    let dir = verif_dir().join("replays").join(prop);
+    let dir = out_dir().join("replays").join(prop);
     let _ = std::fs::create_dir_all(&dir);
     let path = dir.join(format!("{:016x}.json", hash_str(sig)));
     std::fs::write(&path, serde_json::to_string_pretty(&rep).ok()?).ok()?;
@@ -675,7 +688,7 @@ pub fn write_evidence(spec: &CheckSpec, base: u64, total: &WorkerOut, wall_s: f6
         "wall_s": wall_s,
         "violations": n_violations,
     });
-    let dir = verif_dir().join("evidence");
+    let dir = out_dir().join("evidence");
     let _ = std::fs::create_dir_all(&dir);
     let path = dir.join(format!("{}.json", spec.prop));
     let mut f = std::fs::File::create(&path).expect("evidence file");
@@ -724,7 +737,7 @@ pub fn check_hist(prop: &str, thorough: bool) -> i32 {
     let base = base_seed();
     println!("VERIF_SEED={base} property={prop} tier={}", if thorough { "thorough" } else { "quick" });
     let t0 = Instant::now();
-    let _ = std::fs::remove_dir_all(verif_dir().join("replays").join(prop));
+    let _ = std::fs::remove_dir_all(out_dir().join("replays").join(prop));
     let spec = CheckSpec {
         prop,
         thorough,
